@@ -40,6 +40,8 @@ def gen(rng, tier):
            # two more simple clients in the same process, afterwards: each
            # receives its own events only
            'pair': rng.random() < 0.2,
+           # the consumer starts before connect() is called
+           'early': rng.random() < 0.15,
            # the server greets every (re)connected client with an event that
            # travels right behind the CONNECT reply
            'welcome': rng.random() < 0.5,
@@ -95,6 +97,9 @@ def gen(rng, tier):
         consumer = [['recv', rng.choice([None, None, 2.5])]
                     for _ in range(n + 1)] + consumer[:2]
         cfg['welcome'] = False
+    if cfg['early']:
+        consumer[0:0] = [rng.choice([['recv', None], ['recv', None],
+                                     ['emit'], ['call']])]
     return {'cfg': cfg, 'consumer': consumer, 'producer': producer}
 
 
@@ -249,12 +254,89 @@ def _run(case, cfg, w):
         made.append(cl)
         return cl
     sc.client_class = factory
+    kernel = getattr(w, 'kernel', None)
+    t0 = w.now()
+    # ---- consumer ---------------------------------------------------------
+    results = []
+    cur_step = [0]
+
+    def note(step, kind, val):
+        ev = rec.add('consumer', step=step, what=kind, val=val)
+        results.append({'step': step, 'kind': kind, 'val': val,
+                        'seq': ev['seq'], 't': ev['t']})
+
+    if is_async:
+        import asyncio
+
+        async def consume():
+            ecount = 0
+            for i, st in enumerate(case['consumer']):
+                cur_step[0] = i
+                try:
+                    if st[0] == 'recv':
+                        rec.add('recv_start', step=i, timeout=st[1])
+                        r = await sc.receive(timeout=st[1])
+                        note(i, 'recv', r)
+                    elif st[0] == 'emit':
+                        ecount += 1
+                        await sc.emit('ping', 'e%d' % ecount)
+                        note(i, 'emit', 'e%d' % ecount)
+                    elif st[0] == 'call':
+                        ecount += 1
+                        r = await sc.call('ping', 'e%d' % ecount, timeout=2)
+                        note(i, 'call', r)
+                    elif st[0] == 'sleep_to':
+                        await asyncio.sleep(max(0.0, t0 + st[1] - w.now()))
+                    elif st[0] == 'until_down':
+                        end = w.now() + st[1]
+                        while sc.connected_event.is_set() and sc.connected \
+                                and w.now() < end:
+                            await asyncio.sleep(0.0005)
+                    else:
+                        await asyncio.sleep(st[1])
+                except Exception as e:   # noqa
+                    note(i, 'exc:' + st[0], type(e).__name__)
+    else:
+        def consume():
+            ecount = 0
+            for i, st in enumerate(case['consumer']):
+                cur_step[0] = i
+                try:
+                    if st[0] == 'recv':
+                        rec.add('recv_start', step=i, timeout=st[1])
+                        r = sc.receive(timeout=st[1])
+                        note(i, 'recv', r)
+                    elif st[0] == 'emit':
+                        ecount += 1
+                        sc.emit('ping', 'e%d' % ecount)
+                        note(i, 'emit', 'e%d' % ecount)
+                    elif st[0] == 'call':
+                        ecount += 1
+                        r = sc.call('ping', 'e%d' % ecount, timeout=2)
+                        note(i, 'call', r)
+                    elif st[0] == 'sleep_to':
+                        kernel.sleep(max(0.0, t0 + st[1] - w.now()))
+                    elif st[0] == 'until_down':
+                        ce = sc.connected_event
+                        kernel.block(lambda: not ce.is_set() or
+                                     not sc.connected, st[1],
+                                     label='until_down')
+                    else:
+                        kernel.sleep(st[1])
+                except Exception as e:   # noqa
+                    note(i, 'exc:' + st[0], type(e).__name__)
+    hc = None
+    if cfg.get('early'):
+        # the application's consumer is started BEFORE connect() is called
+        # on the same object (its first call waits for the connection)
+        hc = w.call(consume, _label=('consumer',))
+        w.settle(horizon=0.01)
+        rec.count('app.consumer_started_before_connect')
     h = w.call(sc.connect, 'http://s', transports=['websocket'],
                namespace=NS)
     w.settle()
     if h.exc is not None or not sc.connected:
         return {'harness': 'simple client failed to connect: %r' % (h.exc,)}
-    kernel = getattr(w, 'kernel', None)
     buf = YieldList(kernel, rec)
     sc.input_buffer = buf
     # the instant the connection ends for good: __disconnect_final clears
@@ -350,76 +432,8 @@ def _run(case, cfg, w):
                 w.api('s', 'disconnect', sid, namespace=NS)
             rec.count('fault.server_disconnect')
 
-    # ---- consumer ---------------------------------------------------------
-    results = []
-    cur_step = [0]
-
-    def note(step, kind, val):
-        ev = rec.add('consumer', step=step, what=kind, val=val)
-        results.append({'step': step, 'kind': kind, 'val': val,
-                        'seq': ev['seq'], 't': ev['t']})
-
-    if is_async:
-        import asyncio
-
-        async def consume():
-            ecount = 0
-            for i, st in enumerate(case['consumer']):
-                cur_step[0] = i
-                try:
-                    if st[0] == 'recv':
-                        rec.add('recv_start', step=i, timeout=st[1])
-                        r = await sc.receive(timeout=st[1])
-                        note(i, 'recv', r)
-                    elif st[0] == 'emit':
-                        ecount += 1
-                        await sc.emit('ping', 'e%d' % ecount)
-                        note(i, 'emit', 'e%d' % ecount)
-                    elif st[0] == 'call':
-                        ecount += 1
-                        r = await sc.call('ping', 'e%d' % ecount, timeout=2)
-                        note(i, 'call', r)
-                    elif st[0] == 'sleep_to':
-                        await asyncio.sleep(max(0.0, t0 + st[1] - w.now()))
-                    elif st[0] == 'until_down':
-                        end = w.now() + st[1]
-                        while sc.connected_event.is_set() and sc.connected \
-                                and w.now() < end:
-                            await asyncio.sleep(0.0005)
-                    else:
-                        await asyncio.sleep(st[1])
-                except Exception as e:   # noqa
-                    note(i, 'exc:' + st[0], type(e).__name__)
-    else:
-        def consume():
-            ecount = 0
-            for i, st in enumerate(case['consumer']):
-                cur_step[0] = i
-                try:
-                    if st[0] == 'recv':
-                        rec.add('recv_start', step=i, timeout=st[1])
-                        r = sc.receive(timeout=st[1])
-                        note(i, 'recv', r)
-                    elif st[0] == 'emit':
-                        ecount += 1
-                        sc.emit('ping', 'e%d' % ecount)
-                        note(i, 'emit', 'e%d' % ecount)
-                    elif st[0] == 'call':
-                        ecount += 1
-                        r = sc.call('ping', 'e%d' % ecount, timeout=2)
-                        note(i, 'call', r)
-                    elif st[0] == 'sleep_to':
-                        kernel.sleep(max(0.0, t0 + st[1] - w.now()))
-                    elif st[0] == 'until_down':
-                        ce = sc.connected_event
-                        kernel.block(lambda: not ce.is_set() or
-                                     not sc.connected, st[1],
-                                     label='until_down')
-                    else:
-                        kernel.sleep(st[1])
-                except Exception as e:   # noqa
-                    note(i, 'exc:' + st[0], type(e).__name__)
-    hc = w.call(consume, _label=('consumer',))
+    if hc is None:
+        hc = w.call(consume, _label=('consumer',))
     last_t = 0.0
     for t, kind, n in sorted(case['producer'], key=lambda x: x[0]):
         if t > last_t:
